@@ -8,7 +8,11 @@ import (
 	"github.com/pkg/errors"
 	"reflect"
 	"strings"
+	"time"
 )
+
+// a time value is validated as a variable: validator.Struct refuses it
+var timeType = reflect.TypeOf(time.Time{})
 
 const (
 	ArgValidate component_definition.ArgType = "Validate"
@@ -47,7 +51,7 @@ func (c *validateAwarePostProcessors) PostProcessProperties(properties []*compon
 				}
 				p = p.Elem()
 			}
-			if p.Kind() == reflect.Struct {
+			if p.Kind() == reflect.Struct && !p.ConvertibleTo(timeType) {
 				err := c.v.Struct(prop.Value.Interface())
 				if err != nil {
 					return nil, errors.Wrapf(err, "validate on struct field '%s' error", prop)
